@@ -734,7 +734,9 @@ class Metadata:
             # Remove fields that have already been checked.
             fields_to_check -= {"metadata_version"}
 
-            for key in fields_to_check:
+            # Sorted, so that the order of the reported errors does not depend on
+            # string hash randomization.
+            for key in sorted(fields_to_check):
                 try:
                     # Can't use getattr() as that triggers descriptor protocol which
                     # will fail due to no value for the instance argument.
